@@ -19,7 +19,13 @@ def run(tier):
     wd = vlib.workdir("c05")
     tr = os.path.join(wd, "enum.ndjson")
     vers = "OB,FO3,SK,SSE,FO4,FO76,SF" if tier == "quick" else "all"
-    rc, out, err = vlib.run_harness(exe, ["c05-enum", tr, vers, "0,1,2"], timeout=6000)
+    # value sweep (see C01): instances with the other layouts of a block (enumeration values, flags, absent strings)
+    discr = os.path.join(wd, "discr.ndjson")
+    rc, out, err = vlib.run_harness(exe, ["c01-probe", discr, "12", "12" if tier == "quick" else "0"], timeout=3000)
+    if rc != 0:
+        raise vlib.InfraError("c01-probe failed: " + err[-500:])
+    ck.cov["value_sweep_settings"] = json.loads(out.strip().splitlines()[-1])["settings"]
+    rc, out, err = vlib.run_harness(exe, ["c05-enum", tr, vers, "0,1,2", discr], timeout=6000)
     if rc != 0:
         raise vlib.InfraError("c05-enum failed: " + err[-1500:])
     ck.cov["runs"] = json.loads(out.strip().splitlines()[-1])
